@@ -308,6 +308,14 @@ def _drive(case, root, fs, probes, sig, done):
                     pr = _guard("read_parquet_dask(geometry=, bounds=)",
                                 lambda: read_parquet_dask(path, filesystem=fs, geometry=col,
                                                           bounds=tuple(b)), sig)
+                    # whatever survives the pruning (possibly nothing), the frame must still
+                    # report and use the requested column
+                    _check_dask(pr, col, "d_parquet[geometry=, bounds=]", sig, probes, st,
+                                light=True)
+                    if pr.geometry.name != col:
+                        raise Bad("dask-active-changed@d_parquet",
+                                  f"read_parquet_dask(geometry={col!r}, bounds={b}) reports "
+                                  f"{pr.geometry.name!r}")
                     got = _guard("pruned.cx", lambda: pr.cx[b[0]:b[2], b[1]:b[3]].compute(), sig)
                     single = GeoDataFrame({col: full[col].array.copy()}, index=full.index)
                     want = single.cx[b[0]:b[2], b[1]:b[3]]
